@@ -326,7 +326,7 @@ func callNorm(f func() float64) (v float64) {
 }
 
 func TestNorm(t *testing.T) {
-	vk.Run(t, "norm", vk.Opts{Quick: 800, Thorough: 40000, NoCrumb: true}, func(t *rapid.T) normCase {
+	vk.Run(t, "norm", vk.Opts{Quick: 800, Thorough: 20000, NoCrumb: true}, func(t *rapid.T) normCase {
 		return normCase{
 			Kind: rapid.IntRange(0, nNrmKinds-1).Draw(t, "kind"),
 			Norm: rapid.IntRange(0, 3).Draw(t, "norm"),
